@@ -135,8 +135,10 @@ impl HybridTimestamp {
 
     pub fn increment(self) -> Self {
         let timestamp = Timestamp::now();
-        if timestamp == self.0 {
-            Self(timestamp, self.1.increment())
+        if timestamp <= self.0 {
+            // The wall clock did not advance (or went backwards): keep our own time and rely on
+            // the logical clock, so the result is always strictly greater than the input.
+            Self(self.0, self.1.increment())
         } else {
             Self(timestamp, LamportTimestamp::default())
         }
